@@ -133,10 +133,11 @@ fn pipeops_case(cx: &mut Ctx, rt: usize, preset: u64, seed: u64, ops: &[i64]) {
 }
 
 // ---------------------------------------------------------------------------------------------
-// cell: BatchCollector over other element types and batch limits (unit, u8, String; 0, 1, usize::MAX), is_empty
+// cell: BatchCollector over other element types and batch limits (unit, u8, String; 0, 1, usize::MAX), is_empty (M+S: kind 4 cases)
 // ---------------------------------------------------------------------------------------------
 
-async fn collector_hist<T: Send + Clone + PartialEq + std::fmt::Debug + 'static>(maxb: usize, tz: bool, ops: &[i64], mk: impl Fn(i64) -> T) -> Option<String> {
+/// `rec`: the batches in the order in which they came out, each behind a -1 marker ... then -2 and what the final flush returned (items encoded by `enc`)
+async fn collector_hist<T: Send + Clone + PartialEq + std::fmt::Debug + 'static>(maxb: usize, tz: bool, ops: &[i64], mk: impl Fn(i64) -> T, enc: impl Fn(&T) -> i64, rec: &std::sync::Mutex<Vec<i64>>) -> Option<String> {
     let c: BatchCollector<T> = BatchCollector::new(maxb, if tz { Duration::ZERO } else { Duration::from_secs(3600) });
     let mut added: Vec<T> = vec![];
     let mut out: Vec<T> = vec![];
@@ -144,14 +145,15 @@ async fn collector_hist<T: Send + Clone + PartialEq + std::fmt::Debug + 'static>
         let b = if o >= 1000 { added.push(mk(o - 1000)); c.add(mk(o - 1000)).await } else if o == 1 { c.flush().await } else { c.check_timeout().await };
         match b {
             Err(e) => return Some(format!("op {} failed: {:?}", k, e)),
-            Ok(Some(b)) => { if b.is_empty() { return Some(format!("op {} emitted an empty batch", k)); } out.extend(b); }
+            Ok(Some(b)) => { if b.is_empty() { return Some(format!("op {} emitted an empty batch", k)); } { let mut g = rec.lock().unwrap(); g.extend(b.iter().map(&enc)); g.push(-1); } out.extend(b); }
             Ok(None) => {}
         }
         let (l, e) = (c.len().await, c.is_empty().await);
         if out.len() + l != added.len() { return Some(format!("after op {}: {} items emitted + {} buffered, {} added", k, out.len(), l, added.len())); }
         if e != (l == 0) { return Some(format!("after op {}: is_empty() = {} with len() = {}", k, e, l)); }
     }
-    if let Ok(Some(b)) = c.flush().await { out.extend(b); }
+    rec.lock().unwrap().push(-2);
+    if let Ok(Some(b)) = c.flush().await { rec.lock().unwrap().extend(b.iter().map(&enc)); out.extend(b); }
     if out != added { return Some(format!("the batches and the final flush together are not the {} added items in order (first difference at {:?})", added.len(), (0..out.len().min(added.len())).find(|&i| out[i] != added[i]))); }
     None
 }
@@ -160,21 +162,27 @@ fn collector_t_case(cx: &mut Ctx, ty: u64, maxb: usize, tz: bool, ops: &[i64]) {
     let cell = "BatchCollector (unit / u8 / String items)";
     let case = json!({"cell": "collector_t", "kind": 24, "ty": ty, "maxb": maxb as u64, "tz": tz, "ops": ops});
     cx.sum.eval(cell, &format!("ct {} {} {} {:?}", ty, maxb, tz, ops), ops.len() >= 3);
-    s_only(cx, cell);
+    // M+S since the third extension: the history is also evaluated by the collector model of Model.v (kind 4, generic in the item type)
+    cx.sum.cell_status(cell, "M+S");
     let opv = ops.to_vec();
+    let rec = Arc::new(std::sync::Mutex::new(Vec::<i64>::new()));
+    let rc = rec.clone();
     let r = guarded(|| with_rt(0, async move {
         tokio::time::timeout(HANG, async move {
             match ty {
-                0 => collector_hist::<()>(maxb, tz, &opv, |_| ()).await,
-                1 => collector_hist::<u8>(maxb, tz, &opv, |x| x as u8).await,
-                _ => collector_hist::<String>(maxb, tz, &opv, |x| format!("item-{}", x)).await,
+                0 => collector_hist::<()>(maxb, tz, &opv, |_| (), |_| 0, &rc).await,
+                1 => collector_hist::<u8>(maxb, tz, &opv, |x| x as u8, |x| *x as i64, &rc).await,
+                _ => collector_hist::<String>(maxb, tz, &opv, |x| format!("item-{}", x), |s| s[5..].parse().unwrap_or(-99), &rc).await,
             }
         }).await
     }));
+    // the model's history: items as the element type keeps them (unit: 0, u8: truncated); check_timeout with a zero timeout acts as
+    // flush, with a long one as nothing
+    let mops: Vec<i64> = ops.iter().filter_map(|&o| if o >= 1000 { Some(1000 + match ty { 0 => 0, 1 => ((o - 1000) as u8) as i64, _ => o - 1000 }) } else if o == 1 || tz { Some(1) } else { None }).collect();
     match r {
         Err(p) => cx.sum.fail(cell, None, case, &format!("panicked: {}", p)),
         Ok(Err(_)) => cx.sum.fail(cell, None, case, "did not return (8 s)"),
         Ok(Ok(Some(p))) => cx.sum.fail(cell, None, case, &p),
-        Ok(Ok(None)) => {}
+        Ok(Ok(None)) => { let obs = rec.lock().unwrap().clone(); let force = cx.used[4] < cx.budget[4] + 30; cx.coq(4, maxb as u64, 0, &mops, &obs, &case, force); }
     }
 }
